@@ -1,6 +1,76 @@
-From Dns Require Import Model.NameWire.
+(* Props/C03.v — property C03: domain names, text and wire forms correspond;
+   63/255-octet limits enforced.  Only statements; proofs in Proofs/.
+
+   Vocabulary.  [ls : list label] is a wire name (labels without the root);
+   [valid_wire ls] = every label has 1..63 octets (each < 256) and the wire form
+   incl. the root octet is at most 255 octets.  [wire_name ls] is the
+   uncompressed wire form, [show_name ls] the presentation text
+   UnpackDomainName prints.  [parse_name s] (Spec/NameSpec.v) is what a
+   fully-qualified text denotes, read left to right: an unescaped dot ends a
+   label, \DDD and \c are single octets.  [pack_name_plain s cap] models
+   PackDomainName(s, make([]byte, cap), 0, nil, false); [unpack_name msg off]
+   models UnpackDomainName; [is_domain_name] models IsDomainName. *)
+From Dns Require Import Model.NameWire Spec.NameSpec
+  Proofs.NameWireProofs Proofs.NameRoundtripProofs.
 Open Scope N_scope.
-(* placeholder until Proofs/NameWireProofs.v lands: names not fully qualified are refused *)
+
+(* wire -> text: every valid wire name unpacks to its presentation form,
+   consuming exactly the name (whatever follows it in the message) *)
+Theorem wire_name_unpacks_to_presentation :
+  forall (ls : list label) (post : bytes),
+    valid_wire ls = true ->
+    unpack_name (wire_name ls ++ post) 0 = Ok (show_name ls, wire_len ls).
+Proof. exact unpack_wire_name. Qed.
+
+(* ... and that text packs back to the identical octets *)
+Theorem presentation_packs_back_to_identical_octets :
+  forall (ls : list label) (cap : N),
+    valid_wire ls = true -> 320 <= cap ->
+    pack_name_plain (show_name ls) cap = Ok (wire_name ls).
+Proof. exact pack_show_name. Qed.
+
+(* the escaping is unambiguous for all octet values in every position *)
+Theorem escaping_is_unambiguous :
+  forall a b : list label,
+    valid_wire a = true -> valid_wire b = true -> show_name a = show_name b -> a = b.
+Proof. exact show_name_injective. Qed.
+
+Theorem presentation_denotes_its_labels :
+  forall ls : list label, valid_wire ls = true -> parse_name (show_name ls) = Some ls.
+Proof. exact parse_show_name. Qed.
+
+(* a fully-qualified name is judged valid by IsDomainName exactly when it has no
+   empty label and respects the 63/255 limits ... *)
+Theorem is_domain_name_iff_no_empty_label_and_limits :
+  forall (s : bytes) (ls : list label),
+    is_fqdn s = true -> parse_name s = Some ls ->
+    snd (is_domain_name s) = name_len_ok ls.
+Proof. exact is_domain_name_iff_limits. Qed.
+
+(* ... and that is exactly when PackDomainName accepts it (given room), in which
+   case it emits the wire form of the denoted labels *)
+Theorem pack_accepts_iff_limits :
+  forall (s : bytes) (ls : list label) (cap : N),
+    is_fqdn s = true -> parse_name s = Some ls -> 320 <= cap ->
+    (name_len_ok ls = true -> pack_name_plain s cap = Ok (wire_name ls)) /\
+    (name_len_ok ls = false -> exists e, pack_name_plain s cap = Err e).
+Proof. exact pack_name_plain_spec. Qed.
+
+(* every fully-qualified text denotes some label sequence (so the two theorems
+   above apply to every FQDN text) *)
+Theorem every_fqdn_text_denotes_labels :
+  forall s : bytes, is_fqdn s = true -> exists ls, parse_name s = Some ls.
+Proof. exact fqdn_parses. Qed.
+
+(* the library never emits a name it would itself reject *)
+Theorem packed_name_is_accepted_by_unpacker :
+  forall (s : bytes) (cap : N) (w : bytes),
+    is_fqdn s = true -> wfb s -> 320 <= cap -> pack_name_plain s cap = Ok w ->
+    exists ls, parse_name s = Some ls /\ valid_wire ls = true /\ w = wire_name ls /\
+               unpack_name w 0 = Ok (show_name ls, lenN w).
+Proof. exact packed_name_unpacks. Qed.
+
+(* names that are not fully qualified are refused by the packer *)
 Theorem nonfqdn_refused :
-  forall s cap compress st, s <> [] -> is_fqdn_b s = false -> pack_name s cap compress st = Err "fqdn".
+  forall s cap compress st, s <> [] -> is_fqdn s = false -> pack_name s cap compress st = Err "fqdn".
 Proof. intros s cap compress st Hs Hf. unfold pack_name. destruct s; [congruence|]. now rewrite Hf. Qed.
